@@ -553,12 +553,14 @@ impl Engine {
             "wall_s": (wall * 1000.0).round() / 1000.0,
             "violations": self.violations.len(),
         });
-        let dir = format!("{}/evidence", self.verif_root);
-        let _ = std::fs::create_dir_all(&dir);
-        let path = format!("{dir}/{}.json", self.id);
-        let tmp = format!("{path}.tmp");
-        std::fs::write(&tmp, serde_json::to_string_pretty(&ev).unwrap()).expect("write evidence");
-        std::fs::rename(&tmp, &path).expect("rename evidence");
+        if std::env::var("VERIF_NO_EVIDENCE").is_err() {
+            let dir = format!("{}/evidence", self.verif_root);
+            let _ = std::fs::create_dir_all(&dir);
+            let path = format!("{dir}/{}.json", self.id);
+            let tmp = format!("{path}.tmp");
+            std::fs::write(&tmp, serde_json::to_string_pretty(&ev).unwrap()).expect("write evidence");
+            std::fs::rename(&tmp, &path).expect("rename evidence");
+        }
         println!(
             "{} tier={} seed={} evaluations={} distinct_nontrivial={} violations={} wall={:.1}s",
             self.id,
